@@ -326,7 +326,30 @@ pub fn gen_c18(seed: u64, thorough: bool, only: Option<u64>, out: &mut Out) {
         expected.push((m, auxs));
       }
     }
-    r.shuffle(&mut wire);
+    // runs 4 and 5 keep the groups in generation order and end with a group of exactly t reports (a group that only
+    // appears in the last t positions); run 6 has one group of 70 and one of 20 reports
+    if gi == 4 || gi == 5 {
+      let m = vec![0xee, gi as u8, 1];
+      let auxs: Vec<Option<Vec<u8>>> = (0..t as usize).map(|i| Some(vec![i as u8, 9])).collect();
+      if let Some(grp) = make_group(&mut r, m.clone(), epoch.as_bytes().to_vec(), t, true, auxs.clone()) {
+        wire.extend(grp.wire.iter().cloned());
+        expected.push((m, auxs));
+      }
+    } else {
+      if gi == 6 {
+        for (sz, tagb) in [(70usize, 0xa1u8), (20, 0xa2)] {
+          let m = vec![0xdd, tagb];
+          let auxs: Vec<Option<Vec<u8>>> = (0..sz).map(|i| if i % 3 == 0 { None } else { Some(vec![i as u8, tagb]) }).collect();
+          if let Some(grp) = make_group(&mut r, m.clone(), epoch.as_bytes().to_vec(), t, true, auxs.clone()) {
+            wire.extend(grp.wire.iter().cloned());
+            if sz >= t as usize {
+              expected.push((m, auxs));
+            }
+          }
+        }
+      }
+      r.shuffle(&mut wire);
+    }
     let msgs: Vec<Message> = wire.iter().map(|b| Message::from_bytes(b).unwrap()).collect();
     let agg = AggregationServer::new(t, &epoch);
     let want_exact = canon_outputs(expected.clone());
